@@ -2,7 +2,8 @@ import VncModel.Gen.C09
 import VncModel.Ws.Base64
 /-
 Model of the hybi frame decoder, src/libvncserver/ws_decode.c **with fixes/C09-ws-header-split.diff
-applied** (`hybiHeaderBytesMissing`, EAGAIN keeps the state):
+and fixes/C09-control-frame-limits.diff applied** (`hybiHeaderBytesMissing`, EAGAIN keeps the state;
+reserved opcodes and control frames longer than 125 bytes are protocol errors):
 
   hybiDecodeCleanupBasics/Complete  ↔ `cleanupBasics` / `cleanupComplete`
   hybiReturnData                    ↔ `returnData`
@@ -104,10 +105,13 @@ def opContinuation : Byte := 0x00
 def opText : Byte := 0x01
 def opBinary : Byte := 0x02
 def opClose : Byte := 0x08
+def opPing : Byte := 0x09
+def opPong : Byte := 0x0A
 def opInvalid : Byte := 0xFF
 
 example : opContinuation.toNat = C09.opContinuation ∧ opText.toNat = C09.opText ∧
     opBinary.toNat = C09.opBinary ∧ opClose.toNat = C09.opClose ∧ opInvalid.toNat = C09.opInvalid ∧
+    opPing.toNat = C09.opPing ∧ opPong.toNat = C09.opPong ∧
     C09.hdrLenShort = 6 ∧ C09.hdrLenExtended = 8 ∧ C09.hdrLenLong = 14 ∧ C09.carryBufSize = 3 := by
   decide
 
@@ -147,6 +151,9 @@ def Ctx.nRead (c : Ctx) : Nat := c.hdr.length
 def Ctx.remaining (c : Ctx) : Nat := (c.payloadLen + 2 ^ 64 - c.nReadPayload) % 2 ^ 64
 
 def Ctx.isControl (c : Ctx) : Bool := c.opcode &&& 0x08 != 0
+
+/-- `isReservedOpcode` (fixes/C09-control-frame-limits.diff): opcodes 0x3-0x7 and 0xB-0xF -/
+def isReservedOp (op : Byte) : Bool := (0x03 ≤ op && op ≤ 0x07) || 0x0B ≤ op
 
 /-- `hybiDecodeCleanupBasics` (header.fin and the old buffer contents are left alone) -/
 def cleanupBasics (c : Ctx) : Ctx :=
@@ -205,6 +212,7 @@ def parse2 (c : Ctx) : Parse2 :=
     let op := b0 &&& 0x0f
     let fin := (b0 &&& 0x80) >>> 7
     let c := { c with opcode := op, fin := fin }
+    if isReservedOp op then .error .eproto c else      -- RFC 6455 5.2: fail the connection
     let step : Option Ctx :=
       if c.isControl then
         if fin = 0 then none else some c
@@ -215,6 +223,8 @@ def parse2 (c : Ctx) : Parse2 :=
     | none => .error .eproto c
     | some c =>
       let c := { c with payloadLen := (b1 &&& 0x7f).toNat }
+      -- RFC 6455 5.5: control frames carry at most 125 bytes (7-bit length form only)
+      if c.isControl ∧ c.payloadLen > 125 then .error .eproto c else
       if b1 &&& 0x80 = 0 then .error .eproto c else .ok c
   | _ => .pending
 
